@@ -84,7 +84,16 @@ fn rw_family<S: Strat>(out: &mut Vec<Inst>, fill: bool) {
     }
 }
 
-fn more_family<S: Strat + arc_swap::strategy::Strategy<crate::api::V2> + arc_swap::strategy::CaS<crate::api::V2>>(out: &mut Vec<Inst>, fill: bool) {
+fn more_family<
+    S: Strat
+        + arc_swap::strategy::Strategy<crate::api::V2>
+        + arc_swap::strategy::CaS<crate::api::V2>
+        + arc_swap::strategy::Strategy<Option<crate::api::V>>
+        + arc_swap::strategy::CaS<Option<crate::api::V>>,
+>(
+    out: &mut Vec<Inst>,
+    fill: bool,
+) {
     let path = if S::NAME == "nofast" { "nofast" } else if fill { "full" } else { "fast" };
     let slots = crate::api::SLOTS;
     for mode in [Fresh, Reuse] {
@@ -255,6 +264,19 @@ fn more_family<S: Strat + arc_swap::strategy::Strategy<crate::api::V2> + arc_swa
                     move || h_more::panic_rcu::<S>(fill, at),
                 ));
             }
+        }
+        for (rcu, name) in [(false, "cas"), (true, "rcu")] {
+            let mut x = inst(
+                format!("opt_{}:{}:{}", name, path, m),
+                &["C01", "C02", "C03", "C05", "C06"],
+                mode,
+                3,
+                "Option container: R{load, drop, load_full} || C{compare_and_swap(None => c) | rcu} step by step; W{swap None; swap b; swap None} as complete calls placed anywhere",
+                move || h_more::opt_h::<S>(fill, rcu),
+            );
+            x.k = 3;
+            x.p_with_k = Some(1);
+            out.push(x);
         }
         out.push(inst(
             format!("serde_conc:{}:{}", path, m),
